@@ -98,6 +98,8 @@ def ops_for(rng, z):
            ('fast_len', lambda s: pb.fast_len(s), True),
            ('concatenate', lambda s: pb.concatenate([s, type(s).like(s, start_time=None)]), True),
            ('signal_transform', lambda s: smooth3(s, k=2), False),
+           # ... with the extra argument given positionally: whatever the wrapper does with it, both containers must get the same
+           ('signal_transform_positional', lambda s: smooth3(s, 2), False),
            ('rechunk', lambda s: s.rechunk(), True), ('to_dask', lambda s: s.to_dask_array(), True)]
     # the public FFT wrappers called directly on the signal's array, with the keywords scipy.fft documents (norm=, n=, axis=; s=, axes=
     # for the 2-D / N-D transforms on the sample axes' side is covered by C20): the Dask branch must honour them like the NumPy branch
